@@ -244,6 +244,24 @@ CLAIMED = {
         "technique": "Lean 4 proof (mutual structural recursion over the tree with a nesting budget) + differential "
                      "correspondence + decode-equality oracle",
     },
+    "C13": {
+        "text": "PARTIAL by nature. Lean: (1) over tables GENERATED from the source: binding classes (shared by all "
+                "calls) are not written outside __init__ and no Binding method uses a field holding a helper with "
+                "per-use mutable state; the only stores on shared schema objects / the object factory are keyed cache "
+                "fills; (2) noninterference theorem on the step model: with memo cells only, under EVERY interleaving "
+                "of any number of calls each call observes what it observes alone; witness that one shared scratch "
+                "variable breaks this (D6, fixed in /repo). Runtime atomicity is not modelled. The harness runs a "
+                "controlled scheduler (sys.settrace + baton): thread A preempted after its k-th call/return event "
+                "inside suds/, B runs to completion, A resumes - k swept over the invocation (all k thorough, "
+                "uniform sample quick) for document, rpc and rpc/encoded multiref replies and for clone(); random "
+                "schedules with up to 3 line-level preemptions among 2..4 threads; returned values and request bytes "
+                "compared with the sequential run; shared WSDL objects fingerprinted before/after invocations.",
+        "design_ref": "DESIGN.md section 6 C13",
+        "note": "switches inside C code and real GIL timing are not exercised; custom Transport classes must provide "
+                "__deepcopy__ for clone() (the harness's recording transport does, like HttpTransport).",
+        "technique": "Lean 4 proof (invariant over all interleavings of a step model) + generated write-set tables + "
+                     "systematic schedule exploration with a deterministic scheduler",
+    },
 }
 
 NOT_YET = "check not built yet in this round (design in DESIGN.md section 6); not claimed"
